@@ -8,7 +8,8 @@ package main
 //	gen -hist1 IN1.json                one history: prints [{"out": sha256, "err": "...", "text": "..."}] to stdout
 //
 // A call is "<compiler>|<schema>|<options>": compiler tlb (tlb/parser) or tl (tl/parser); options name one of the ways
-// a generator can be constructed (see tlbOptions / tlKnown). The trace has one segment per history: a Reset event with
+// a generator can be constructed (see tlbOptions / tlKnown). The output of a call is EVERY exported result of the generator:
+// tlb/parser GenerateGolangTypes + GetTlbTypes (names and definitions in the order returned); tl/parser LoadTypes + LoadFunctions. The trace has one segment per history: a Reset event with
 // `ref` = the output of each of its calls when it is the only call of a fresh process, then one Gen event per call.
 
 import (
@@ -94,9 +95,14 @@ func runCall(schemas map[string]string, call string) (o callOut) {
 			o.Err = "parse: " + err.Error()
 			return
 		}
-		o.Text, err = tlbparser.NewGenerator(opts...).GenerateGolangTypes(parsed.Declarations, "", false)
+		g := tlbparser.NewGenerator(opts...)
+		o.Text, err = g.GenerateGolangTypes(parsed.Declarations, "", false)
 		if err != nil {
 			o.Err = "types: " + err.Error()
+		}
+		// the generator's other exported result: the definitions it collected, in the order it hands them out
+		for _, t := range g.GetTlbTypes() {
+			o.Text += "\n// GetTlbTypes: " + t.Name + "\n" + t.Definition
 		}
 	case "tl":
 		known, err := tlKnown(parts[2])
